@@ -104,6 +104,16 @@ def var_closure(P, exprs):
             if isinstance(x, tuple):
                 work.append(x)
     parts = []
+    if S.canon is not None:
+        # canonical form: re-render every definition under the canonical variable names, ordered by those names
+        items = []
+        for l in seen:
+            nm = S.show(("var", l))
+            ds = sorted(S.show(d[0]) for d in S.var_defs(l))
+            items.append((int(nm[1:]) if nm[1:].isdigit() else 0, nm, ds))
+        for _, nm, ds in sorted(items):
+            parts.append("%s := {%s}" % (nm, " | ".join(ds)))
+        return "; ".join(parts)
     for l, ds in sorted(seen.items(), key=lambda kv: (P.b.local_name(kv[0]) or "tmp", kv[1])):
         parts.append("%s := {%s}" % (P.b.local_name(l) or "tmp", " | ".join(ds)))
     return "; ".join(parts)
@@ -345,7 +355,11 @@ def certify(R, prog, bodies, rule):
         P = Prover(prog, b, summaries=summaries_from(lemmas, prog))
         seen = set()
         for kind, c in ss:
-            ok, sig, why = judge_site(prog, b, P, kind, c)
+            P.S.canon = None
+            ok, sig_readable, why = judge_site(prog, b, P, kind, c)
+            P.S.canon = {}
+            _ok2, sig, _why2 = judge_site(prog, b, P, kind, c)     # same site, rename-invariant rendering for the key
+            P.S.canon = None
             key = "%s|%s|%s" % (b.short, kind, sig)
             if key in seen:
                 continue
@@ -363,11 +377,11 @@ def certify(R, prog, bodies, rule):
                 counts["open"] += 1
                 R.ob(rule, "cert:" + key, "%s in %s has a certificate" % (kind, b.short), False, where=b.where(ln),
                      detail="%s — the audited lemma was written for another version of `%s`; the argument must be re-audited (%s)"
-                     % (sig, lemma_valid(prog, lemmas[key])[1], lemmas[key]["reason"]))
+                     % (sig_readable, lemma_valid(prog, lemmas[key])[1], lemmas[key]["reason"]))
             else:
                 counts["open"] += 1
                 R.ob(rule, "cert:" + key, "%s in %s has a certificate" % (kind, b.short), False, where=b.where(ln),
-                     detail="%s — not proved (%s) and no audited lemma for this exact expression" % (sig, why))
+                     detail="%s — not proved (%s) and no audited lemma for this exact expression" % (sig_readable, why))
     # S4: arithmetic on parsed numbers
     s4(R, prog, bodies, rule, lemmas)
     R.ob(rule, "census", "sites: %s; proved %d, by lemma %d, open %d" % (per_kind, counts["proved"], counts["lemma"], counts["open"]), True)
